@@ -127,7 +127,7 @@ func cmdCheck(args []string) int {
 		if !matchAny(k, pats) {
 			continue
 		}
-		if !hasProp(contractProps(con), want) {
+		if !hasProp(p.contractPropsFull(con), want) {
 			continue
 		}
 		fn := p.Funcs[k]
@@ -194,6 +194,35 @@ func contractProps(c *Contract) []string {
 	for _, lc := range c.Loops {
 		for _, cl := range lc.Invariants {
 			add(cl.Props)
+		}
+	}
+	return out
+}
+
+// contractPropsFull: properties of the contract, of what it includes/refines, and of the package's kindprops
+func (p *Program) contractPropsFull(c *Contract) []string {
+	out := contractProps(c)
+	add := func(ps []string) {
+		for _, x := range ps {
+			dup := false
+			for _, y := range out {
+				if x == y {
+					dup = true
+				}
+			}
+			if !dup {
+				out = append(out, x)
+			}
+		}
+	}
+	for _, n := range append(append([]string{}, c.Includes...), c.Refines...) {
+		if ic := p.Contracts[n]; ic != nil {
+			add(p.contractPropsFull(ic))
+		}
+	}
+	if pc := p.PC[c.PkgPath]; pc != nil {
+		for _, ps := range pc.KindProps {
+			add(ps)
 		}
 	}
 	return out
